@@ -85,6 +85,10 @@ def depth1():
             "'ab'.zfill(i0)", "'ab'.center(i0)", "'a'.join(['x', 'y'])", "(1).bit_length()", "'%d' % i0",
             "'ab'[i0]", "[1, 2][i0]", "(1, 2)[b0]", "{1: 2}[i0]", "[i0, i1]", "(i0, b0)", "{i0: i1}", "{i0, i1}",
             "-i0", "- - i0", "i0 + 1j", "f'{i0}'", "(lambda: 1)()", "[x for x in (1, 2)]", "i0 if b0 else i1",
+            "sum([i0], start=i1)", "sum([1], start=5)", "int('11', base=2)", "sorted([i0, i1], reverse=True)", "max([], default=i0)",
+            "max([i0, i1], key=abs)", "min([i0], default=1)", "round(7, ndigits=-1)", "str(b'a', encoding='utf8')", "list(iterable=[1])",
+            "bool(x=1)", "dict(a=i0)", "enumerate([i0], start=i1)", "int(x='3')", "pow(i0, 2, mod=5)", "len(obj=[1])", "range(stop=3)",
+            "zip()", "zip([1, 2], [])", "reversed([])", "enumerate(())", "iter('')", "filter(None, [0, ''])", "map(abs, [])",
             "x", "x + 1", "f(1)", "i0.real", "'ab'.encode()", "b'ab'", "...", "1 if i0 else 1 / 0",
             "len('ab') or 1", "max(i0, i1) > min(i0, i1)", "abs(i0) >= 0", "sum([i0, i1, i2]) == i0 + i1 + i2",
             "i0 // i1 * i1 + i0 % i1 == i0", "divmod(i0, i1)", "pow(i0, 2)", "pow(2, i0)", "round(i0 / i1)",
